@@ -556,6 +556,68 @@ func runProxy(sc proxyScenario) (problems []string, skipped string) {
 			&sniproxy.DialOption{WithoutTLS: true, TunnelOptions: opt,
 				Dialer: &websocket.Dialer{NetDialContext: td.dial, ReadBufferSize: 64 << 10, WriteBufferSize: 64 << 10}})
 	}
+	var hung *websocket.Conn // fault "kick-hung": the first endpoint is a peer that never answers
+	hungClosed := make(chan struct{})
+	if sc.fault == "kick-hung" {
+		u := "ws" + strings.TrimPrefix(ts.URL, "http") + "/"
+		hung, _, err = websocket.DefaultDialer.Dial(u, nil)
+		if err != nil {
+			return nil, "dial hung endpoint: " + err.Error()
+		}
+		go func() {
+			for {
+				if _, _, err := hung.ReadMessage(); err != nil {
+					close(hungClosed)
+					return
+				}
+			}
+		}()
+		for i := 0; srv.VerifEndpointPtr("epA") == 0; i++ {
+			if i > 2000 {
+				return nil, "hung endpoint never registered"
+			}
+			time.Sleep(time.Millisecond)
+		}
+		hello := snix.ClientHello("a.test")
+		var fronts []net.Conn
+		for i := 0; i < sc.tunnels+1; i++ {
+			c, err := net.Dial("tcp", lis.Addr().String())
+			if err != nil {
+				return nil, "front dial: " + err.Error()
+			}
+			c.Write(hello) // the proxy's Dial call through the hung endpoint stays pending
+			fronts = append(fronts, c)
+		}
+		time.Sleep(50 * time.Millisecond)
+		ep2, err := dialEP() // a newer connection under the same name kicks the hung one
+		if err != nil {
+			return nil, "dial kicking endpoint: " + err.Error()
+		}
+		defer ep2.Close()
+		select {
+		case <-hungClosed:
+		case <-time.After(watchdog + 6*time.Second):
+			problems = append(problems, "kicked endpoint's control connection still open 12 s after the kick (graceful shutdown unanswered)")
+		}
+		for i, c := range fronts {
+			c.SetReadDeadline(time.Now().Add(watchdog + 6*time.Second))
+			_, err := io.Copy(io.Discard, c)
+			if ne, ok := err.(net.Error); ok && ne.Timeout() {
+				problems = append(problems, fmt.Sprintf("front connection %d waiting on the kicked endpoint still open 12 s after the kick", i))
+			}
+			c.Close()
+		}
+		hung.Close()
+		ep2.Close()
+		cancel()
+		select {
+		case <-frontDone:
+		case <-time.After(watchdog + 6*time.Second):
+			problems = append(problems, "ServeFront did not return after cancel")
+		}
+		ts.CloseClientConnections()
+		return problems, ""
+	}
 	ep, err := dialEP()
 	if err != nil {
 		return nil, "dial endpoint: " + err.Error()
@@ -732,11 +794,11 @@ func main() {
 		for i := 0; i < nr; i++ {
 			ops = append(ops, genRace(r).ops()...)
 		}
-		for _, fault := range []string{"sever", "kick", "endpoint-close", "cancel"} {
+		for _, fault := range []string{"sever", "kick", "endpoint-close", "cancel", "kick-hung"} {
 			ops = append(ops, proxyScenario{fault, 2, "legacy"}.canon())
 		}
 		for i := 0; i < np; i++ {
-			ops = append(ops, proxyScenario{hx.Pick(r, []string{"sever", "kick", "endpoint-close", "cancel"}), r.Intn(4), hx.Pick(r, []string{"legacy", "legacy", "siding"})}.canon())
+			ops = append(ops, proxyScenario{hx.Pick(r, []string{"sever", "kick", "endpoint-close", "cancel", "kick-hung"}), r.Intn(4), hx.Pick(r, []string{"legacy", "legacy", "siding"})}.canon())
 		}
 	}
 	var lines []string
